@@ -756,13 +756,14 @@ def render(st):
     u = (" " + st["unit"]) if st.get("unit") else ""
     if k == "group":
         return ind + st["name"]
+    c = ("  # " + st["comment"]) if st.get("comment") else ""
     if k == "def":
         if st.get("declare"):
-            return ind + f"{st['name']} {type_text(st)}{dims_text(st.get('dims'))}{u}"
+            return ind + f"{st['name']} {type_text(st)}{dims_text(st.get('dims'))}{u}{c}"
         return ind + f"{st['name']} {type_text(st)}{dims_text(st.get('dims'))} = " \
-                     f"{lit_text(st['value'])}{u}"
+                     f"{lit_text(st['value'])}{u}{c}"
     if k == "mod":
-        return ind + f"{st['name']} = {lit_text(st['value'])}{u}"
+        return ind + f"{st['name']} = {lit_text(st['value'])}{u}{c}"
     if k == "constant":
         return ind + "!constant"
     if k == "option":
@@ -785,6 +786,12 @@ def render(st):
     if k == "import":
         name = (st["name"] + " ") if st.get("name") else ""
         return ind + name + ref_text(st["ref"])
+    if k == "tags":
+        return ind + "!tags " + json.dumps(st["tags"], separators=(",", ":"))
+    if k == "description":
+        return ind + f"!description '{st['text']}'"
+    if k == "blank":
+        return ""
     if k == "cmp_expr":
         return ind + f"{st['name']} bool = (\"{{?{st['left']}}} {st['cmp']} {{?{st['right']}}}\")"
     if k == "fn":
@@ -843,6 +850,8 @@ def run_statements(env, stmts, files):
             env.function_def(st)
         elif k == "cmp_expr":
             env.compare_def(st)
+        elif k in ("tags", "description", "blank"):
+            pass          # annotations and blank lines: no effect on values or constraints
         elif k == "raw":
             if st.get("aborts"):
                 raise Abort(st["aborts"], st.get("prop", "C13"))
